@@ -291,72 +291,81 @@ func ruleBookPair(r *core.Run, appendFn, releaseFn string, minSites int) {
 	if af == nil || rf == nil {
 		return
 	}
+	resolvesTo := func(fn *ssa.Function, c ssa.CallInstruction, g *ssa.Function) bool {
+		_, cs := r.Resolver(fn).CalleeName(c.Common())
+		for _, x := range cs {
+			if x == g {
+				return true
+			}
+		}
+		return false
+	}
+	isRelease := func(fn *ssa.Function) func(ssa.CallInstruction) bool {
+		return func(c ssa.CallInstruction) bool { return resolvesTo(fn, c, rf) }
+	}
 	n := 0
-	for _, f := range r.P.SortedFuncs(r.ConsensusFuncs()) {
-		res := r.Resolver(f)
-		relBlocks := map[*ssa.BasicBlock]bool{}
-		type site struct {
-			c   ssa.CallInstruction
-			idx int
-		}
-		var sites []site
-		relIdx := map[*ssa.BasicBlock]int{}
-		for _, b := range f.Blocks {
-			for i, ins := range b.Instrs {
-				c, ok := ins.(ssa.CallInstruction)
-				if !ok {
-					continue
-				}
-				_, cs := res.CalleeName(c.Common())
-				for _, g := range cs {
-					if g == rf {
-						if !relBlocks[b] {
-							relIdx[b] = i
+	cnts := map[*ssa.Function]int{}
+	anchorFrames(r, func(f *ssa.Function, fr frame) {
+		{
+			fns := fr.Fns(f)
+			for _, b := range fr.Fn.Blocks {
+				for _, ins := range b.Instrs {
+					c, ok := ins.(ssa.CallInstruction)
+					if !ok || !resolvesTo(fr.Fn, c, af) {
+						continue
+					}
+					n++
+					cnts[f]++
+					key := core.Key("T-book-pair", r.P.Name(f), fmt.Sprintf("%s#%d", af.Name(), cnts[f]))
+					pos := r.P.Pos(c.Pos())
+					// released on every path to the booking, in the function that books or in an enclosing frame
+					released := false
+					for lvl := len(fr.Chain); lvl >= 0 && !released; lvl-- {
+						var at ssa.Instruction = c
+						if lvl < len(fr.Chain) {
+							at = fr.Chain[lvl]
 						}
-						relBlocks[b] = true
+						released = precededByCall(fns[lvl], at, isRelease(fns[lvl]))
 					}
-					if g == af {
-						sites = append(sites, site{c, i})
+					if released {
+						r.Discharge("T-book-pair", key, pos, "every path to this booking passes "+rf.Name()+" first (re-booking or hand-over)")
+						continue
+					}
+					// first booking: the shard argument is not completed
+					args := c.Common().Args
+					t := strings.TrimPrefix(strings.TrimPrefix(fr.Raw(r, args[len(args)-1]), "~"), "&")
+					ok2, w := mustPassDeep(r, f, effSite{Ins: c, Chain: fr.Chain}, []guard.Atom{guard.Ne("*"+guard.Exact(t)+".Status", constVal(r, "order/types", "ShardCompleted"))})
+					if ok2 {
+						r.Discharge("T-book-pair", key, pos, "first booking: every path to it establishes that the shard's status is not completed")
+					} else {
+						r.Violate("T-book-pair", key, pos, fmt.Sprintf("%s books the shard on its provider's market worker (%s) on a path with no preceding %s and without establishing that the shard is not completed yet: a shard that is already booked is counted a second time (Worker.Storage and income rate exceed the provider's live shards)", r.P.Name(f), af.Name(), rf.Name()), append([]string{"path (branch decisions):"}, w...)...)
 					}
 				}
 			}
 		}
-		cnt := 0
-		for _, st := range sites {
-			n++
-			cnt++
-			B := st.c.Block()
-			key := core.Key("T-book-pair", r.KeyName(f), fmt.Sprintf("%s#%d", af.Name(), cnt))
-			pos := r.P.Pos(st.c.Pos())
-			released := relBlocks[B] && relIdx[B] < st.idx
-			if !released {
-				blocked := map[*ssa.BasicBlock]bool{}
-				for b := range relBlocks {
-					if b != B {
-						blocked[b] = true
-					}
+	})
+	r.Floor("booking_sites", n, minSites)
+}
+
+// precededByCall: every path from fn's entry to the instruction passes a call accepted by is.
+func precededByCall(fn *ssa.Function, at ssa.Instruction, is func(ssa.CallInstruction) bool) bool {
+	blocked := map[*ssa.BasicBlock]bool{}
+	B := at.Block()
+	for _, b := range fn.Blocks {
+		for _, ins := range b.Instrs {
+			if b == B && ins == at {
+				break
+			}
+			if c, ok := ins.(ssa.CallInstruction); ok && is(c) {
+				if b == B {
+					return true
 				}
-				released = len(blocked) > 0 && forwardAvoid(f.Blocks[0], blocked, nil, func(b *ssa.BasicBlock) bool { return b == B }) == nil
-			}
-			if released {
-				r.Discharge("T-book-pair", key, pos, "every path to this booking passes "+rf.Name()+" first (re-booking or hand-over)")
-				continue
-			}
-			// first booking: the shard argument is not completed
-			args := st.c.Common().Args
-			shardArg := args[len(args)-1]
-			t := strings.TrimPrefix(res.Of(shardArg).String(), "~")
-			t = strings.TrimPrefix(t, "&")
-			ck := &guard.Checker{P: r.P, Fn: f, Res: res}
-			ok, w := ck.MustPass(B, []guard.Atom{guard.Ne("*"+guard.Exact(t)+".Status", constVal(r, "order/types", "ShardCompleted"))})
-			if ok {
-				r.Discharge("T-book-pair", key, pos, "first booking: every path to it establishes that the shard's status is not completed")
-			} else {
-				r.Violate("T-book-pair", key, pos, fmt.Sprintf("%s books the shard on its provider's market worker (%s) on a path with no preceding %s and without establishing that the shard is not completed yet: a shard that is already booked is counted a second time (Worker.Storage and income rate exceed the provider's live shards)", r.P.Name(f), af.Name(), rf.Name()), append([]string{"path (branch decisions):"}, w...)...)
+				blocked[b] = true
 			}
 		}
 	}
-	r.Floor("booking_sites", n, minSites)
+	delete(blocked, B)
+	return len(blocked) > 0 && forwardAvoid(fn.Blocks[0], blocked, nil, func(b *ssa.BasicBlock) bool { return b == B }) == nil
 }
 
 // ---------------------------------------------------------------- C06
@@ -555,15 +564,18 @@ func ruleAppendFresh(r *core.Run, prop string) {
 			}
 			break
 		}
-		// a by-value parameter spilled to a local: the caller decides
+		// a by-value parameter spilled to a local: the caller decides, unless the field is written here
+		var param *ssa.Parameter
 		if al, ok := base.(*ssa.Alloc); ok {
 			for _, ref := range *al.Referrers() {
 				if st, ok := ref.(*ssa.Store); ok && st.Addr == al {
 					if p, ok := st.Val.(*ssa.Parameter); ok {
-						base = p
+						param = p
 					}
 				}
 			}
+		} else if p, ok := base.(*ssa.Parameter); ok {
+			param = p
 		}
 		storesHere := false
 		for _, b := range f.Blocks {
@@ -575,7 +587,7 @@ func ruleAppendFresh(r *core.Run, prop string) {
 				}
 			}
 		}
-		if p, ok := base.(*ssa.Parameter); ok && depth < 4 && !storesHere {
+		if p := param; p != nil && depth < 4 && !storesHere {
 			idx := -1
 			for i, q := range f.Params {
 				if q == p {
@@ -668,7 +680,7 @@ func ruleAppendFresh(r *core.Run, prop string) {
 					if g == af {
 						cnt++
 						args := c.Common().Args
-						check(f, c, args[len(args)-1], 0, fmt.Sprintf("%s|WorkerAppend#%d", r.P.Name(f), cnt))
+						check(f, c, args[len(args)-1], 0, fmt.Sprintf("%s|WorkerAppend#%d", r.KeyName(f), cnt))
 					}
 				}
 			}
